@@ -9,12 +9,10 @@ From GocqlV Require Import Lib.Base C01.Model.
 (* ---- hypotheses about the environment ---------------------------------------------------------- *)
 
 (* what one step may assume: an honest server answers only a request it has received completely and has
-   not answered yet, with that request's stream id and content; a failed body read is not followed by
-   further bytes of the same body *)
+   not answered yet, with that request's stream id and content *)
 Definition lok (s : state) (l : label) : Prop :=
   match l with
   | SrvAnswer id t => In (id, t) (srv s)
-  | RecvBodyErr net resid => net = true \/ resid = []
   | _ => True
   end.
 
@@ -25,16 +23,13 @@ Fixpoint env_ok (s : state) (ls : list label) : Prop :=
   | l :: ls' => lok s l /\ match step s l with Some s' => env_ok s' ls' | None => True end
   end.
 
-(* the two halves, separately (env_ok is their conjunction, see Proofs) *)
+(* the same, spelled out: this is the hypothesis the theorems carry *)
 Fixpoint honest (s : state) (ls : list label) : Prop :=
   match ls with
   | [] => True
   | l :: ls' => (match l with SrvAnswer id t => In (id, t) (srv s) | _ => True end)
                 /\ match step s l with Some s' => honest s' ls' | None => True end
   end.
-
-Definition body_errors_fatal (ls : list label) : Prop :=
-  forall net resid, In (RecvBodyErr net resid) ls -> net = true \/ resid = [].
 
 (* ---- vocabulary of the statements ---------------------------------------------------------------- *)
 
